@@ -2,6 +2,6 @@
 # usage: tools/tryneutral.sh <patch.diff> [Cxx ...]   runs all (or the given) quick checks on the scratch copy; prints only alarms
 P=$1; shift
 PROPS=${@:-C01 C02 C03 C04 C05 C06 C07 C08 C09 C10 C11 C12 C13 C14 C15 C16 C17 C18 C19 C20}
-out=$(tools/trymut2.sh $P $PROPS 2>&1)
+out=$(tools/trymut3.sh $P $PROPS 2>&1)
 echo "$out" | grep -E "^(VIOLATION|CHECKER|  key=)|does not apply" | grep -v "^VIOLATION" | sort -u
 echo "$out" | grep -cE "^C[0-9]+ \[" | sed 's/^/checks run: /'
